@@ -218,8 +218,13 @@ impl SplitterSet {
         }
     }
 
+    // A block that has no predecessor under any character never received a splitter,
+    // so list may be too short to have an entry for it: its list is empty.
     fn take_list(&mut self, b: u32) -> SplitterList {
-        std::mem::take(&mut self.list[b as usize])
+        match self.list.get_mut(b as usize) {
+            Some(l) => std::mem::take(l),
+            None => SplitterList::default(),
+        }
     }
 
     fn add_splitter(&mut self, s: &Splitter) {
